@@ -53,7 +53,8 @@ def gen_document(rng):
     budget = [rng.choice([5, 10, 18, 30])]
     body = ''.join(gen_list(rng, rng.choice([0, 1, 2, 3]), budget) for _ in range(rng.choice([1, 1, 2, 3])))
     extra = rng.choice(['', '', 'ol { list-style-type: lower-roman }', 'ol ol { list-style-type: upper-alpha }',
-                        'ul { list-style-type: "- " }'])
+                        'ul { list-style-type: "- " }', 'ol ol li::marker { display: none }',
+                        'ul li::marker { display: none }'])
     css = (AFTER_CSS if rng.random() < 0.6 else '') + (MARKER_CSS if rng.random() < 0.4 else '') + extra
     return f'<html><head><style>{css}</style></head><body>{body}</body></html>'
 
@@ -106,9 +107,13 @@ def w_node(style_for, element):
         after = style_for(element, 'after')
         items = None if after is None or after['content'] in ('normal', 'inhibit', 'none') else D.plain_items(after['content'])
         marker = style_for(element, 'marker')
-        if marker['display'] == ('none',) or marker['content'] == 'none':
-            raise D.Unsupported('marker display / content none')
-        marker_items = None if marker['content'] in ('normal', 'inhibit') else D.plain_items(marker['content'])
+        if marker['content'] == 'none' and marker['display'] != ('none',):
+            raise D.Unsupported('marker content none')
+        if marker['display'] == ('none',):
+            # marker_to_box returns before creating any box (848642f): no marker, whatever the list style
+            list_style, marker_items = 'none', None
+        else:
+            marker_items = None if marker['content'] in ('normal', 'inhibit') else D.plain_items(marker['content'])
         return ['li', w_attr(element.get('value')), 'none' if list_style == 'none' else S.w_name(list_style),
                 'none' if marker_items is None else D.w_items(marker_items),
                 'none' if items is None else D.w_items(items), kids]
